@@ -36,6 +36,8 @@ type concOpts struct {
 	finalReads         bool
 	journal            bool
 	backupDir          string
+	// afterJoin runs on the main task once every client has finished, before the final reads and Close
+	afterJoin func(cr *concResult, sim *sched.Sim) *Violation
 }
 
 type concResult struct {
@@ -290,6 +292,11 @@ func concExec(t *testing.T, p *Plan, co concOpts) *concResult {
 				}))
 			}
 			sim.Join(clients...)
+			if co.afterJoin != nil && cr.closeInv == 0 && cr.v == nil {
+				if v := co.afterJoin(cr, sim); v != nil {
+					fail(v)
+				}
+			}
 			if cr.closeInv == 0 && co.finalReads {
 				for ki := range keys {
 					doOp(0, Op{K: "get", Key: ki}, nil)
